@@ -14,6 +14,9 @@ import (
 	"context"
 	"encoding/json"
 	"fmt"
+	"os"
+	"path/filepath"
+	"sort"
 	"strings"
 	"testing"
 
@@ -433,6 +436,35 @@ func TestCheckBinderSentinels(t *testing.T) {
 		if sig != "" && !kit.Known("C12", sig) {
 			path := kit.Violation("C12", sig, msg, c, trace)
 			t.Errorf("VIOLATION %s (%s): %s (%s)", sig, name, msg, path)
+		}
+	}
+	// the binder half's regression replays (replays/C12-binder-*.json; the check runs with cwd /verif): they
+	// are judged here as well, so that they are part of every run even where TestReplay only knows the
+	// scheduler half's case format
+	files, _ := filepath.Glob(filepath.Join("replays", "C12-binder-*.json"))
+	sort.Strings(files)
+	for _, f := range files {
+		b, err := os.ReadFile(f)
+		if err != nil {
+			t.Errorf("read %s: %v", f, err)
+			continue
+		}
+		var rf kit.ReplayFile
+		if err := json.Unmarshal(b, &rf); err != nil {
+			t.Errorf("parse %s: %v", f, err)
+			continue
+		}
+		res, ok := ReplayBinder(&rf)
+		if !ok {
+			t.Errorf("%s is not a binder-half case", f)
+			continue
+		}
+		kit.Class("binder-regression-replay")
+		if res.Violated && !kit.Known("C12", res.Signature) {
+			var c BinderCase
+			_ = json.Unmarshal(rf.Case, &c)
+			path := kit.Violation("C12", res.Signature, "regression replay "+f+": "+res.Message, &c, nil)
+			t.Errorf("VIOLATION %s: regression replay %s violates: %s (%s)", res.Signature, f, res.Message, path)
 		}
 	}
 }
